@@ -20,6 +20,7 @@ import (
 	"context"
 	"fmt"
 	"math/rand"
+	"os"
 	"runtime"
 	"strconv"
 	"strings"
@@ -476,11 +477,7 @@ func genMulti(tier string, seed int64, only string) []*Case {
 				if mask[0] == 0 && mask[1] == 0 && !illegal {
 					continue // covered by (1)
 				}
-				if thorough {
-					emitAll(op, mk(tuple), mask, 0, 4)
-				} else {
-					emitAll(op, mk(tuple), mask, 2, 4)
-				}
+				emitAll(op, mk(tuple), mask, 0, 4)
 			}
 		}
 	}
@@ -497,7 +494,7 @@ func genMulti(tier string, seed int64, only string) []*Case {
 			emitAll(op, mk(tuple), zeros(3), 0, 6)
 		}
 		// sampled: longer scripts, cold probes, illegal suffixes
-		nSample := 1500
+		nSample := 6000
 		if thorough {
 			nSample = 40000
 		}
@@ -537,7 +534,7 @@ func genMulti(tier string, seed int64, only string) []*Case {
 				}
 			}
 		}
-		nSample := 2500
+		nSample := 8000
 		if thorough {
 			nSample = 60000
 		}
@@ -644,4 +641,122 @@ func runMultiConcCase(c *Case) string {
 	rec.mu.Lock()
 	defer rec.mu.Unlock()
 	return fmt.Sprintf("res %s trace=%s", c.id, joinOrDash(rec.trace))
+}
+
+// ---------- kind=multipark: one schedule of TakeUntil's atomic actions, replayed on the real code ----------
+//
+//   case kf4 kind=multipark op=TakeUntil sub=7 srcs=N11@1,N12@2,E1@3;N21@1 sched=0,1,0,0,1
+//
+// sched (see lean/RoModel/Multi/Micro.lean): 0 = the source thread handles its next notification,
+// 1 = the signal thread's next atomic action (Store(ready,1), then destination.Complete).
+// The only schedules that can be forced from outside without a hook in the library are of the form
+//   0, 1, 0…0, 1 :  the source's first value is being delivered (the recording observer holds the
+// destination's lock), the signal's Next stores the flag and parks on that lock, the source goes on
+// (its values are now skipped, its terminal takes the lock first because it is already running when
+// the lock is released), the signal's Complete arrives last.
+// The park is detected by inspecting the goroutine dump (no sleep); the lock hand-over after the
+// release is decided by the Go runtime (a running goroutine barges in front of a woken waiter), so the
+// run is repeated a few times and the first run that followed the schedule is reported.
+
+func init() { registerKind("", nil, "multipark", runMultiParkCase) }
+
+func signalParked() bool {
+	buf := make([]byte, 1<<18)
+	n := runtime.Stack(buf, true)
+	if os.Getenv("VERIF_DEBUG_PARK") != "" {
+		fmt.Fprintln(os.Stderr, string(buf[:n]))
+	}
+	for _, g := range strings.Split(string(buf[:n]), "\n\n") {
+		if strings.Contains(g, "TakeUntil") && strings.Contains(g, "sync.(*Mutex).lockSlow") && strings.Contains(g, ".CompleteWithContext(") {
+			return true
+		}
+	}
+	return false
+}
+
+func runMultiParkOnce(mc *multiCase) (string, bool) {
+	src, sig := mc.probes[0], mc.probes[1]
+	o := ro.TakeUntil[int](sig.Observable())(src.Observable())
+	rec := &Recorder{}
+	setRecorder(rec)
+	defer setRecorder(nil)
+	entered := make(chan struct{})
+	release := make(chan struct{})
+	first := true
+	obs := ro.NewObserverWithContext(
+		func(ctx context.Context, v int) {
+			rec.add("N" + renderVal(v) + "/" + renderCtx(ctx))
+			if first {
+				first = false
+				close(entered)
+				<-release
+			}
+		},
+		func(ctx context.Context, err error) { rec.add("E" + renderErr(err) + "/" + renderCtx(ctx)) },
+		func(ctx context.Context) { rec.add("C/" + renderCtx(ctx)) },
+	)
+	o.SubscribeWithContext(mc.subCtx, obs)
+	var wg sync.WaitGroup
+	wg.Add(2)
+	sigStored := make(chan struct{})
+	go func() {
+		defer wg.Done()
+		for i := range src.script {
+			src.push(i)
+		}
+	}()
+	<-entered
+	go func() {
+		defer wg.Done()
+		close(sigStored)
+		sig.push(0)
+	}()
+	<-sigStored
+	deadline := time.Now().Add(5 * time.Second)
+	parked := false
+	for time.Now().Before(deadline) {
+		if signalParked() {
+			parked = true
+			break
+		}
+		runtime.Gosched()
+	}
+	close(release)
+	wg.Wait()
+	rec.mu.Lock()
+	defer rec.mu.Unlock()
+	return joinOrDash(rec.trace), parked
+}
+
+func runMultiParkCase(c *Case) string {
+	sched := parseInts(c.get("sched", "-"))
+	ok := len(sched) >= 3 && sched[0] == 0 && sched[1] == 1 && sched[len(sched)-1] == 1
+	for _, t := range sched[2 : len(sched)-1] {
+		if t != 0 {
+			ok = false
+		}
+	}
+	if c.get("op", "?") != "TakeUntil" || !ok {
+		return "res " + c.id + " unsupported"
+	}
+	var last string
+	for attempt := 0; attempt < 40; attempt++ {
+		mc, bad := parseMulti(c)
+		if mc == nil || len(mc.probes) != 2 || len(mc.probes[1].script) < 1 || len(mc.probes[0].script) != len(sched)-2 {
+			return "res " + c.id + " " + bad + "unsupported"
+		}
+		trace, parked := runMultiParkOnce(mc)
+		if !parked {
+			return "res " + c.id + " harness-timeout"
+		}
+		last = trace
+		// the schedule was followed iff the signal's completion came last, i.e. was refused: the
+		// delivered trace then ends with the source's own terminal
+		toks := strings.Split(trace, ",")
+		srcEnd := mc.probes[0].script[len(mc.probes[0].script)-1]
+		if srcEnd.kind != 'N' && strings.HasPrefix(toks[len(toks)-1], string(srcEnd.kind)) && strings.HasSuffix(toks[len(toks)-1], "."+strconv.Itoa(srcEnd.mark)) {
+			break
+		}
+	}
+	return "res " + c.id + " trace=" + last
 }
